@@ -16,9 +16,9 @@
 (* Conformance: the harness evaluates the text and its fully parenthesised *)
 (* form on the real code and compares both with Eval and with each other.  *)
 (***************************************************************************)
-EXTENDS JMES, Json, Toks, SequencesExt, DocsOps, DocsOpsBig
+EXTENDS JMES, Json, Toks, SequencesExt, DocsOps, DocsOpsBig, DocsOps4
 
-CONSTANTS Emit, Prop, Triples, Pool, NDocs
+CONSTANTS Emit, Prop, Triples, Pool, NDocs, Quads
 
 \* the 18 spellings
 BinToks == << PipeT, OrT, AndT, EqT, NeT, LtT, LeT, GtT, GeT, PlusT, MinusT, MinusUT,
@@ -30,7 +30,7 @@ Level(k) == CASE k = "pipe" -> 1 [] k = "or" -> 2 [] k = "and" -> 3
               [] k \in {"star", "mult", "div", "idiv", "mod"} -> 6
 
 UnaryPfx == << <<>>, <<NotT>>, <<MinusT>>, <<PlusT>> >>
-X == Id(<<120>>)  Y == Id(<<121>>)  Z == Id(<<122>>)
+X == Id(<<120>>)  Y == Id(<<121>>)  Z == Id(<<122>>)  W == Id(<<119>>)
 
 \* one prefix position at a time (keeps the product small, still every
 \* operator sees every prefix on either side)
@@ -39,7 +39,14 @@ PrefixCombos == { <<1, 1, 1>> } \cup { <<p, 1, 1>> : p \in 2..4 } \cup { <<1, p,
 
 Inst2 == { [o1 |-> a, o2 |-> 0, pf |-> pf] : a \in 1..18, pf \in { q \in PrefixCombos : q[3] = 1 } }
 Inst3 == { [o1 |-> a, o2 |-> b, pf |-> pf] : a \in 1..18, b \in 1..18, pf \in PrefixCombos }
-InstSeq == SetToSeq(IF Triples THEN Inst3 ELSE Inst2 \cup { i \in Inst3 : i.pf = <<1, 1, 1>> })
+\* three operators, four operands:  x op1 y op2 z op3 w  (one spelling per
+\* operator; Quads = "rep": one operator per precedence level, "all": every operator)
+OneEach == {1, 2, 3, 4, 6, 10, 11, 13, 15, 17, 18, 5, 7, 8, 9}        \* | || && == < + - * / // % != <= > >=
+PerLevel == {1, 2, 3, 4, 10, 13}                                       \* | || && == + *
+QOps == IF Quads = "all" THEN OneEach ELSE IF Quads = "rep" THEN PerLevel ELSE {}
+Inst4 == { [o1 |-> a, o2 |-> b, o3 |-> c, pf |-> <<1, 1, 1>>] : a \in QOps, b \in QOps, c \in QOps }
+InstSeq == SetToSeq({ [o1 |-> i.o1, o2 |-> i.o2, o3 |-> 0, pf |-> i.pf] :
+                        i \in (IF Triples THEN Inst3 ELSE Inst2 \cup { j \in Inst3 : j.pf = <<1, 1, 1>> }) } \cup Inst4)
 
 VARIABLES bucket, idx
 NB == 64
@@ -50,6 +57,7 @@ Spec == Init /\ [][Next]_<<bucket, idx>>
 inst == InstSeq[idx]
 ToksOf(i) == UnaryPfx[i.pf[1]] \o <<X, BinToks[i.o1]>> \o UnaryPfx[i.pf[2]] \o <<Y>>
              \o (IF i.o2 = 0 THEN <<>> ELSE <<BinToks[i.o2]>> \o UnaryPfx[i.pf[3]] \o <<Z>>)
+             \o (IF i.o3 = 0 THEN <<>> ELSE <<BinToks[i.o3], W>>)
 
 \* ---- fully parenthesised printing of the ASTs that occur here -----------
 OpTok(op) == CASE op = "+" -> PlusT [] op = "-" -> MinusT [] op = "*" -> Star [] op = "/" -> DivT
@@ -76,11 +84,19 @@ Skel(n) == IF n.k \in {"not", "neg", "pos"} THEN Skel(n.x)
            ELSE [k |-> "leaf", s |-> n.s]
 Leaf(s) == [k |-> "leaf", s |-> s]
 Bin(l, r) == [k |-> "bin", l |-> l, r |-> r]
+\* The grouping rule, stated without a parser: the root of  e1 o1 e2 ... on ek+1
+\* is the RIGHTMOST operator among those of the lowest precedence level
+\* (lower level binds looser; equal levels associate to the left); its
+\* operands are the groupings of what is to its left and to its right.
+RECURSIVE SkelOf(_, _)
+SkelOf(ops, leaves) ==          \* ops: sequence of token kinds, leaves: Len(ops) + 1 names
+  IF Len(ops) = 0 THEN Leaf(leaves[1])
+  ELSE LET minL == CHOOSE l \in {Level(ops[j]) : j \in 1..Len(ops)} : \A j \in 1..Len(ops) : l <= Level(ops[j])
+           r == CHOOSE j \in 1..Len(ops) : Level(ops[j]) = minL /\ \A j2 \in (j + 1)..Len(ops) : Level(ops[j2]) # minL
+       IN Bin(SkelOf(SubSeq(ops, 1, r - 1), SubSeq(leaves, 1, r)), SkelOf(SubSeq(ops, r + 1, Len(ops)), SubSeq(leaves, r + 1, Len(leaves))))
 ExpectedSkel(i) ==
-  IF i.o2 = 0 THEN Bin(Leaf(<<120>>), Leaf(<<121>>))
-  ELSE IF Level(BinToks[i.o1].k) >= Level(BinToks[i.o2].k)
-       THEN Bin(Bin(Leaf(<<120>>), Leaf(<<121>>)), Leaf(<<122>>))      \* tighter or equal first: to the left
-       ELSE Bin(Leaf(<<120>>), Bin(Leaf(<<121>>), Leaf(<<122>>)))
+  LET ops == <<BinToks[i.o1].k>> \o (IF i.o2 = 0 THEN <<>> ELSE <<BinToks[i.o2].k>>) \o (IF i.o3 = 0 THEN <<>> ELSE <<BinToks[i.o3].k>>)
+  IN SkelOf(ops, <<<<120>>, <<121>>, <<122>>, <<119>>>>)
 \* a unary prefix binds tighter than every binary operator: under the
 \* reading where it does, the operand of every unary node is a leaf
 RECURSIVE UnaryOnLeaves(_)
@@ -88,20 +104,23 @@ UnaryOnLeaves(n) == IF n.k \in {"not", "neg", "pos"} THEN n.x.k \in {"field", "n
                     ELSE IF IsBin(n) THEN UnaryOnLeaves(n.l) /\ UnaryOnLeaves(n.r)
                     ELSE TRUE
 
-Docs == Pool
 Check == idx > 0 =>
   LET ts    == ToksOf(inst)
+      quad  == inst.o3 # 0
+      Docs  == IF quad THEN PoolOps4 ELSE Pool
+      ND    == IF quad THEN Len(PoolOps4) ELSE NDocs
+      pname == IF quad THEN "Ops4" ELSE IF NDocs > 400 THEN "OpsBig" ELSE "Ops"
       comps == Compilations(ts)
       one   == CHOOSE c \in comps : TRUE
       fp    == FullParen(one.n)
-      adms  == [d \in 1..NDocs |-> { OutcomeOf(c, Docs[d]) : c \in comps }]
+      adms  == [d \in 1..ND |-> { OutcomeOf(c, Docs[d]) : c \in comps }]
       cu    == Compile(ts, ModeU)
       same  == Cardinality(comps) = 1
       case  == IF same
                THEN [p |-> Prop, kind |-> "pair", expr |-> Render(ts), expr2 |-> Render(fp),
-                     pool |-> (IF NDocs > 400 THEN "OpsBig" ELSE "Ops"), adms |-> adms]
+                     pool |-> pname, adms |-> adms]
                ELSE [p |-> Prop, kind |-> "search", expr |-> Render(ts), expr2 |-> <<>>,
-                     pool |-> (IF NDocs > 400 THEN "OpsBig" ELSE "Ops"), adms |-> adms]
+                     pool |-> pname, adms |-> adms]
   IN /\ Emit => PrintT("CASE " \o ToJson(case))
      /\ Named(\A c \in comps : c.ok, "AllParse")
      /\ Named(\A c \in comps : Skel(c.n) = ExpectedSkel(inst), "GroupsByTable")
